@@ -136,6 +136,17 @@ CHECKS = {
             "formats likewise; GridDevice round trips and accept/reject decisions against harness-built specifications.",
             "Uses Cirq's own value equality to decide which uses may share a constant (documented collapses accepted); "
             "api.v2.ndarrays only through arg_to_proto.", "DESIGN.md 5/C16"),
+    "C15": ("exploration", "postcondition monitors on every decomposition/synthesis routine (also attachable as icontract ensure wrappers) + numpy Weyl-chamber oracle",
+            "Each routine (kak_decomposition / kak_vector / canonicalisation, magic-basis and Kronecker factorisations, "
+            "bidiagonalisation, unitary_eig / map_eigenvalues, single-qubit angle / axis-angle / PhasedXZ forms, two-qubit "
+            "synthesis to CZ (all option combinations, diagonal and isometry variants), sqrt-iSWAP (every required count), four "
+            "FSim, cphase->2 FSim, MS, Sycamore; three-qubit, Shannon and multi-controlled decompositions; two-qubit state "
+            "preparation; Clifford tableau synthesis) is called on Haar-random inputs plus the measure-zero set (named gates and "
+            "local conjugates, Weyl vertices/edges/faces, degenerate and near-degenerate spectra, near-class inputs at multiples "
+            "of atol) and its documented postcondition is evaluated outside Cirq: factors rebuild the input, canonical ranges, "
+            "gate-count bounds, documented rejections.",
+            "Reconstruction threshold max(100*atol, 1e-5) (10x band only counted); returned operations lowered through "
+            "cirq.unitary(op); tabulation-based synthesis not covered.", "DESIGN.md 5/C15"),
 }
 
 PENDING_REASON = "check not built yet in this round; design in DESIGN.md section 5 (runtime monitor + reference oracle)"
